@@ -91,6 +91,8 @@ func genC02(g *Gen, in Inst, tier string) []HarnessSrc {
 			"\tx := %s\n\ty := %s\n\ta := &%s{F: x}\n\tb := &%s{F: y}\n\tvx.Assert(%s(a, b) == %s(x, y), \"component compared the same at top level and as a field\")\n",
 			nd(U, "x"), nd(U, "y"), sn, sn, eq, ceq)))
 	}
+	out = append(out, h("VX_TV_C02_"+in.ID, "tv", fmt.Sprintf(
+		"\tx := %s\n\ty := %s\n\tvx.Observe(\"eq\", %s(x, y))\n\tvx.Observe(\"eqxx\", %s(x, x))\n", nd(T, "x"), nd(T, "y"), eq, eq)))
 	return out
 }
 
@@ -182,6 +184,8 @@ func genC03(g *Gen, in Inst, tier string) []HarnessSrc {
 		ndo(T, "x", smallOpt(in)), ndo(T, "y", smallOpt(in)), ndo(T, "z", smallOpt(in)), cmp, cmp, cmp)))
 	out = append(out, h("VX_C03_curried_"+in.ID, "curried", fmt.Sprintf(
 		"\tx := %s\n\ty := %s\n\tvx.Assert(%sC(x)(y) == %s(x, y), \"curried form agrees\")\n", ndo(T, "x", recMapOpt(in)), ndo(T, "y", recMapOpt(in)), cmp, cmp)))
+	out = append(out, h("VX_TV_C03_"+in.ID, "tv", fmt.Sprintf(
+		"\tx := %s\n\ty := %s\n\tvx.Observe(\"cmp\", %s(x, y))\n\tvx.Observe(\"cmpyx\", %s(y, x))\n", ndo(T, "x", recMapOpt(in)), ndo(T, "y", recMapOpt(in)), cmp, cmp)))
 	return out
 }
 
@@ -247,6 +251,7 @@ func genC04(g *Gen, in Inst, tier string) []HarnessSrc {
 			"\tx := %s\n\ty := %s\n\tvx.Assume(%s(x, y))\n\tvx.Assert(%s(x, y), \"Equal implies structurally equal\")\n",
 			nd(T, "x"), nd(T, "y"), eq, ref)))
 	}
+	out = append(out, h("VX_TV_C04_"+in.ID, "tv", fmt.Sprintf("\tx := %s\n\tvx.Observe(\"hash\", %s(x))\n", nd(T, "x"), hash)))
 	return out
 }
 
@@ -301,6 +306,8 @@ func genC05(g *Gen, in Inst, tier string) []HarnessSrc {
 				"\tdsnap := %s(dst)\n\t%s(&src)\n\tvx.Assert(%s(dst, dsnap), \"writes through source invisible in copy\")\n",
 			ndo(T, "src", recMapOpt(in)), T.Expr(), clone, dc, ref, ref, clone, scr, ref)))
 	}
+	out = append(out, h("VX_TV_C05_"+in.ID, "tv", fmt.Sprintf(
+		"\tsrc := %s\n\tdst := %s(src)\n\tvx.Observe(\"cloneeq\", %s(dst, src))\n", ndo(T, "src", recMapOpt(in)), cl, ref)))
 	return out
 }
 
